@@ -1,11 +1,59 @@
-/- Oracle operations, group Codec (see /verif/CONVENTIONS.md). -/
+/- Oracle operations, group Codec (C08: Base58, Base58Check, Bech32). Strings travel as the hex of
+   their bytes. -/
 import BtcVerif.Oracle.Util
+import BtcVerif.Model.Base58
+import BtcVerif.Model.Bech32
+import BtcVerif.Spec.Bech32
+import BtcVerif.Prim.SHA256
 
 namespace BtcVerif.Oracle
 open BtcVerif
 
+/-- `bhash.DoubleSha256(x)[:4]` -/
+def cksum4 (x : Bytes) : Bytes := (Prim.dsha256 x).take 4
+
+def bech32Str : Outcome (Bytes × Nat × Bytes) → String :=
+  outcomeStr (fun r => s!"{hexOf r.1} {r.2.1} {hexOf r.2.2}")
+
 def opCodec (op : String) (args : List String) : Option String :=
   match op, args with
+  | "b58.enc", [d] => do
+    let d ← parseHex d
+    some ("ok " ++ hexOf (Model.Base58.encode d))
+  | "b58.dec", [s] => do
+    let s ← parseHex s
+    some (outcomeStr hexOf (Model.Base58.decode s))
+  | "b58c.enc", [d] => do
+    let d ← parseHex d
+    some ("ok " ++ hexOf (Model.Base58Check.encode cksum4 d))
+  | "b58c.encv", [d, v] => do
+    let d ← parseHex d
+    let v ← v.toNat?
+    if v ≥ 65536 then none else
+    some ("ok " ++ hexOf (Model.Base58Check.encodeVersion cksum4 d v))
+  | "b58c.dec", [s] => do
+    let s ← parseHex s
+    some (outcomeStr hexOf (Model.Base58Check.decode cksum4 s))
+  | "bech32.enc", [h, v, d] => do
+    let h ← parseHex h
+    let v ← v.toNat?
+    let d ← parseHex d
+    if v ≥ 256 then none else
+    some (outcomeStr hexOf (Model.Bech32.encode h v d))
+  | "bech32.enc.spec", [h, v, d] => do
+    let h ← parseHex h
+    let v ← v.toNat?
+    let d ← parseHex d
+    some (match Spec.Bech32.bip173Encode h v d with | some s => "ok " ++ hexOf s | none => "err")
+  | "bech32.dec", [s] => do
+    let s ← parseHex s
+    some (bech32Str (Model.Bech32.decode s))
+  | "bech32.dec.spec", [s] => do
+    let s ← parseHex s
+    some (bech32Str (Spec.Bech32.bip173Decode s))
+  | "bech32.validate", [s] => do
+    let s ← parseHex s
+    some (if Model.Bech32.validate s then "ok" else "err")
   | _, _ => none
 
 end BtcVerif.Oracle
